@@ -61,6 +61,7 @@ class Prop(object):
                         u.append(('signed', {'order': list(order), 'times': times, 'export_between': True}))
         for order in ([3], [3, 0], [0, 3], [1, 3, 0]):
             u.append(('signed', {'order': order, 'times': 'increasing'}))
+        u.append(('charsets', {}))
         u.append(('encrypted', {}))
         for comp in (0, 1, 2, 3):
             u.append(('foreign', {'comp': comp}))
@@ -220,6 +221,46 @@ class Prop(object):
         r.dim('compression', comp)
         r.dim('format', fmt)
         r.samples.append(dict(case))
+        return r
+
+    def c_charsets(self, case):
+        """Content given as octets in a named character encoding (encoding=): what comes back - from the object, from its armored and from its binary
+        export - is that content: the same octets, or the text those octets spell in the named encoding."""
+        import pgpy
+        from pgpy.constants import CompressionAlgorithm
+        r = Res()
+        texts = ['Gr\u00fc\u00dfe aus K\u00f6ln', '\u041f\u0440\u0438\u0432\u0435\u0442 \u043c\u0438\u0440', '\u65e5\u672c\u8a9e\u306e\u30c6\u30ad\u30b9\u30c8', 'plain ascii text',
+                 'caf\u00e9 \u20ac 5', '']
+        charsets = ['latin-1', 'cp1252', 'iso8859-15', 'koi8-r', 'cp1251', 'shift_jis', 'euc-jp', 'gb18030', 'big5', 'utf-16', 'utf-16-le', 'utf-32', 'utf-7', 'hz', 'utf-8', 'ascii']
+        for text in texts:
+            for cs in charsets:
+                try:
+                    content = text.encode(cs)
+                except (UnicodeEncodeError, LookupError):
+                    continue
+                for comp in ('Uncompressed', 'ZIP'):
+                    key_id = '%s/%s/%s' % (texts.index(text), cs, comp)
+                    if case.get('only') and case['only'] != key_id:
+                        continue
+                    r.states += 1
+                    r.transitions += 3
+                    probs = []
+                    try:
+                        m = pgpy.PGPMessage.new(content, encoding=cs, compression=CompressionAlgorithm[comp])
+                        for who, obj in (('the message', m), ('its armored export, imported', pgpy.PGPMessage.from_blob(str(m))), ('its binary export, imported', pgpy.PGPMessage.from_blob(bytes(m)))):
+                            got = obj.message
+                            if isinstance(got, (bytes, bytearray)):
+                                if bytes(got) != content:
+                                    probs.append('%s returns other octets than were given' % who)
+                            elif got != text:
+                                probs.append('%s returns the text %r, the octets given spell %r in %s' % (who, got[:30], text[:30], cs))
+                    except Exception as e:
+                        probs.append('raises %r' % (e,))
+                    r.outcomes['charsets:' + ('ok' if not probs else 'violation')] += 1
+                    if probs:
+                        r.viol('charsets', {'part': 'charsets', 'ascii_octets': all(b < 128 for b in content), 'kind': 'content'}, dict(case, only=key_id),
+                               'content %r given as %s octets, %s: %s' % (text[:24], cs, comp, '; '.join(probs[:2])))
+        r.samples.append({'charsets': charsets})
         return r
 
     def c_signed(self, case):
